@@ -25,7 +25,7 @@ LEVEL_NOTE = "trusted: the mangler (props/c14.py) delivers only events the provi
 
 
 def budget(tier):
-    return {"quick": {"runs": 5000, "wall": 170}, "thorough": {"runs": 300000, "wall": 1500}}[tier]
+    return {"quick": {"runs": 5000, "wall": 170}, "thorough": {"runs": 60000, "wall": 900}}[tier]
 
 
 class Mangler:
